@@ -246,3 +246,52 @@ def run_structprint(ctx):
     else:
         res.ok(key, b.where(), "fields are printed from the map's own iteration")
     return res
+
+
+# ---------------------------------------------------------------- R-MEETOPERAND
+def run_meetoperand(ctx):
+    res = RuleResult("R-MEETOPERAND", "Type::conjoin answers with one of its operands unchanged only when the two operands are equal or the "
+                                      "other one is `any`; in every other case the meet is built from the parts of both")
+    lib = ctx.facts.lib
+    from .variance import Prov, flat
+    from ..model import enum_switches, arm_region, op_local
+    b = lib.body(CONJOIN)
+    if not res.anchor(b is not None, CONJOIN):
+        return res
+    p = Prov(lib, b, {1: {"S"}, 2: {"O"}})
+    # whole-operand equality tests and their true targets
+    eq_true = []
+    for c in b.calls:
+        if c.callee.endswith("std::cmp::PartialEq>::eq") or c.path == "std::cmp::PartialEq::eq" or c.callee.endswith("::eq"):
+            if len(c.args) == 2 and {frozenset(flat(p.of_op(c.args[0]))), frozenset(flat(p.of_op(c.args[1])))} == {frozenset({"S"}), frozenset({"O"})}:
+                sw = next((i for i, blk in enumerate(b.blocks) if blk["term"]["k"] == "switch" and op_local(blk["term"]["discr"]) == c.dest["l"]), None)
+                if sw is not None:
+                    eq_true.append(b.blocks[sw]["term"]["otherwise"])
+    any_regions = set()
+    for sw in enum_switches(b, "variable::r#type::Type"):
+        if "Any" in sw["arms"]:
+            any_regions |= set(arm_region(b, sw["arms"]["Any"]))
+    n = 0
+    bad = []
+    for c in b.calls:
+        if not c.callee.endswith("as std::clone::Clone>::clone") or "r#type::Type" not in c.callee:
+            continue
+        labs = flat(p.of_op(c.args[0]))
+        if labs not in ({"S"}, {"O"}):
+            continue
+        # does this clone become the result?
+        if c.dest["l"] != 0:
+            continue
+        n += 1
+        ok = c.bb in any_regions or any(t == c.bb or t in b.dom[c.bb] for t in eq_true)
+        if not ok:
+            bad.append(c)
+    key = "meetoperand:conjoin"
+    if bad:
+        res.bad(key, "Type::conjoin returns one of its operands unchanged on a path where the operands are neither equal nor is the other `any` "
+                     "(%s): the result ignores the other operand, so it need not lie below it - e.g. the meet of two function types must "
+                     "still union their parameter types" % b.where(bad[0].line), b.where(bad[0].line))
+    else:
+        res.ok(key, b.where(), "%d operand-returning path(s), all under `first == second` or the `any` arm" % n)
+    res.floor(n, 1, "operand-returning paths in conjoin")
+    return res
